@@ -1115,10 +1115,12 @@ impl<'a, 'b, W: Write> Serializer for &'a mut YamlSerializer<'b, W> {
                     let indent_str = indent_buf.as_str();
 
                     if content.is_empty() {
-                        if trailing_nl >= 1 {
+                        // Only line breaks: one empty content line under clip chomping stands for
+                        // a single break; under keep chomping every empty line is one break.
+                        let empty_lines = if trailing_nl >= 2 { trailing_nl } else { trailing_nl.min(1) };
+                        for _ in 0..empty_lines {
                             self.out.write_str(indent_str)?;
                             self.at_line_start = false;
-                            // write a single empty content line
                             self.newline()?;
                         }
                     } else {
